@@ -14,6 +14,9 @@
 From Coq Require Import List NArith ZArith.
 From Coq.Strings Require Import Byte.
 From SP Require Import Bytes Params Msgpack Crypto Errors Packets Chunker Rand Sign Verify SignProofs SignAuthProofs SignAuthLocated.
+From SP Require Import Nonce Packets Signcrypt GoLang GoAst GoAstProofs GoAstProofs2.
+From Coq Require String.
+Import String.StringSyntax.
 Import ListNotations.
 Open Scope N_scope.
 
@@ -44,6 +47,34 @@ Theorem C06_all_at_once (vd : validator) (kr : sigring) (input : bytes) (pk msg 
 Proof. exact (attached_authentic_all_located c Hsha vd kr input pk msg L). Qed.
 End C06.
 
+(* SOURCE TIE: the terms f_saltpack_* are generated on every run from the Go syntax trees of
+   /repo (harness/cmd/gen/goast.go); under the Go semantics of model/GoLang.v, with the standard
+   library / NaCl primitives interpreted by ext_prims over the crypto record and calls to other
+   saltpack functions interpreted by the model (each of those has its own such theorem), they
+   compute exactly what the model says, for ALL arguments and EVERY instance of the primitives. *)
+Local Open Scope string_scope.
+Theorem C06_source_verify_processBlock (c : crypto) (v : version) (pk hh sig chunk : bytes) (n : N) (final : bool) :
+  (n < 18446744073709551615)%N ->
+  (vmaj v = 1 \/ vmaj v = 2)%Z ->
+  run_func (ext_model c) f_saltpack_verifyStream_processBlock
+               [VStruct [("publicKey", VBytes pk); ("header", VStruct [("Version", g_version v)]); ("headerHash", VBytes hh)];
+                VBytes sig; VBytes chunk; VBool final; VInt (Z.of_N n + 1)]
+  = match attached_sig_input c v hh chunk n final with
+    | Some inp => if ed_verify c pk inp sig then ORet [VNil] else ORet [VErr "ErrBadSignature" []]
+    | None => OPanic
+    end.
+Proof. exact (go_verify_processBlock_outcome c v pk hh sig chunk n final). Qed.
+Local Close Scope string_scope.
+
+Theorem C06_source_attachedSignatureInput (c : crypto) (v : version) (hh chunk : bytes) (seqno : N) (final : bool) :
+  (seqno < 18446744073709551616)%N ->
+  run_func (ext_prims c) f_saltpack_attachedSignatureInput
+           [g_version v; VBytes hh; VBytes chunk; VInt (Z.of_N seqno); VBool final]
+  = ret_bytes (attached_sig_input c v hh chunk seqno final).
+Proof. exact (go_attachedSignatureInput c v hh chunk seqno final). Qed.
+
+Print Assumptions C06_source_verify_processBlock.
+Print Assumptions C06_source_attachedSignatureInput.
 Print Assumptions C06_authentic.
 Print Assumptions C06_all_at_once.
 
